@@ -4,10 +4,12 @@
     the register map is injective and avoids the scratch registers.  What is not modelled: the byte emission itself
     (two-pass sizing, emit_bytes! bound) and the whole of Cranelift -- those are covered by compiling corpora of
     verifier-accepted programs in a child process (checks/C12.py). *)
-From Coq Require Import ZArith List.
+From Coq Require Import ZArith List Bool.
 From RbpfV Require Import MachInt Ebpf WellFormed Verifier JitLogicProofs.
-From RbpfV.gen Require Import JitLogic.
+From RbpfV Require Import ClCfgProofs.
+From RbpfV.gen Require Import JitLogic Opcodes ClCfg.
 Import ListNotations.
+Open Scope bool_scope.
 Open Scope Z_scope.
 
 (** every conditional / unconditional jump of an accepted program records a target that is an instruction start, and
@@ -30,6 +32,24 @@ Theorem C12_register_map :
   Forall (fun r => 0 <= r < 16 /\ ~ In r gen_jit_scratch) gen_register_map.
 Proof. exact register_map_ok. Qed.
 
+(** Cranelift: blocks are registered for exactly the instructions whose arm looks one up -- every jump, exit and tail call --
+    so `insn_targets[insn_ptr]` cannot fail; on an accepted program computing a jump's target pc never panics *)
+Theorem C12_cranelift_blocks_registered :
+  forallb (fun o => is_jump o || (o =? op_exit) || (o =? op_tail_call)) gen_cl_cfg_ops = true /\
+  forallb (fun o => negb (is_jump o || (o =? op_exit) || (o =? op_tail_call)) || existsb (Z.eqb o) gen_cl_cfg_ops) (map Z.of_nat (seq 0 256)) = true /\
+  gen_cl_cfg_two_slots = [op_lddw] /\
+  forallb (fun o => is_cond_jump o) gen_cl_cond_jump_ops = true /\
+  forallb (fun o => negb (is_cond_jump o) || existsb (Z.eqb o) gen_cl_cond_jump_ops) (map Z.of_nat (seq 0 256)) = true.
+Proof. exact cfg_ops_are_the_block_enders. Qed.
+
+Theorem C12_cranelift_targets_total : forall p, bytes_ok p -> acc p -> forall k,
+  In k (starts p) -> is_jump (opc (insn_at p k)) = true ->
+  gen_cl_target_pc k (insn_at p k) = Ok (k + 1 + off (insn_at p k)) /\ In (k + 1 + off (insn_at p k)) (starts p) /\
+  gen_cl_next_pc k = Ok (k + 1).
+Proof. exact cl_jump_targets. Qed.
+
 Print Assumptions C12_jit_jump_targets.
 Print Assumptions C12_jit_call_targets.
 Print Assumptions C12_register_map.
+Print Assumptions C12_cranelift_blocks_registered.
+Print Assumptions C12_cranelift_targets_total.
